@@ -99,6 +99,13 @@ func c18Setup(prm c18Params) func(c *fw.Ctx, name string) explore.Setup {
 					case "RD0":
 						nc.SetReadDeadline(time.Time{})
 						rdl, rdlSet = c18None, w.Now
+					case "RD0L":
+						// the zero time carrying a location: still "no deadline" (Time.IsZero)
+						nc.SetReadDeadline(time.Time{}.In(time.FixedZone("X", 3600)))
+						rdl, rdlSet = c18None, w.Now
+					case "WD0L":
+						nc.SetWriteDeadline(time.Time{}.In(time.FixedZone("X", 3600)))
+						wdl, wdlSet = c18None, w.Now
 					case "WDp":
 						nc.SetWriteDeadline(at(-time.Second))
 						wdl, wdlSet = w.Now, w.Now
@@ -376,7 +383,7 @@ func c18Scenarios(tier string) []scenario {
 		cfg = explore.Config{P: 3, T: 2, E: 0, Horizon: 60e9}
 		depth = 4
 	}
-	ops := []string{"RDp", "RD1", "RD0", "WDp", "WD1", "WD0", "R", "Rn", "Rp", "W", "W0", "S1", "S2", "RDx", "WDx"}
+	ops := []string{"RDp", "RD1", "RD0", "WDp", "WD1", "WD0", "R", "Rn", "Rp", "W", "W0", "S1", "S2", "RDx", "WDx", "RD0L", "WD0L"}
 	var seqs [][]string
 	var gen func(cur []string)
 	gen = func(cur []string) {
@@ -398,7 +405,7 @@ func c18Scenarios(tier string) []scenario {
 				if o == "RD1" || o == "RDp" || o == "RDx" {
 					hasDL = true
 				}
-				if o == "RD0" {
+				if o == "RD0" || o == "RD0L" {
 					hasDL = false
 				}
 			}
